@@ -583,6 +583,25 @@ let handle (line : string) : string =
         | Err -> Buffer.add_string b "ERR"
         | Panic -> Buffer.add_string b "PANIC"
         | OutOfFuel -> Buffer.add_string b "OUTOFFUEL")
+   | "XP" ->
+       (* a reader that stands past its end holds nothing: the decode of the empty input *)
+       let ds = get_dict (next t) in
+       let _ = next_int t in
+       let _ = next_bytes t in
+       (match dec_msg (nat_of_int !lim) (dict_fn ds) [] with
+        | Ok m -> Buffer.add_string b "OK "; pr_msg b m; pr_enc b m; pr_oracle b ds m (Some [])
+        | Err -> Buffer.add_string b "ERR"
+        | Panic -> Buffer.add_string b "PANIC"
+        | OutOfFuel -> Buffer.add_string b "OUTOFFUEL")
+   | "XI" ->
+       let ds = get_dict (next t) in
+       let bs = next_bytes t in
+       (match dec_msg (nat_of_int !lim) (dict_fn ds) bs with
+        | Ok m -> Buffer.add_string b "OK "; pr_msg b m; pr_enc b m; pr_oracle b ds m (Some bs)
+        | Err -> Buffer.add_string b "ERR"
+        | Panic -> Buffer.add_string b "PANIC"
+        | OutOfFuel -> Buffer.add_string b "OUTOFFUEL")
+   | "POISON" -> Buffer.add_string b "OK"
    | "XM" ->
        (* frames back to back in one reader, each decoded from where it starts: the observation is that of the last
           (or of the first one that is refused) *)
@@ -627,7 +646,7 @@ let handle (line : string) : string =
        Buffer.add_string b " NOMM "; Buffer.add_string b (bool01 (List.for_all nommb m.m_avps))
    | "UTF8" ->
        let bs = next_bytes t in Buffer.add_string b (bool01 (utf8_valid bs))
-   | "LEAFDEC" | "LEAFDECD" ->
+   | "LEAFDEC" | "LEAFDECD" | "LEAFDECI" ->
        (* LEAFDEC <ty> <vl> <octets> *)
        let ty = ty_of_tok (next t) in let vl = next_n t in let bs = next_bytes t in
        (match dec_leaf ty vl bs with
